@@ -1,6 +1,7 @@
 package checks
 
 import (
+	"sync/atomic"
 	"fmt"
 	"math/rand"
 	"sync"
@@ -145,6 +146,9 @@ func queueCrashExplore(tr *core.Trace, env *qenv.Env, b crashBudget) (*core.Trac
 		seen := map[string]bool{}
 		for _, m := range masks {
 			images++
+			if b.Tick != nil {
+				atomic.AddInt64(b.Tick, 1)
+			}
 			res := drainImage(rp.Image(m, -1), tr.Name+"-img")
 			what := fmt.Sprintf("keep=%b", m)
 			if res.err != "" {
@@ -197,22 +201,28 @@ func CheckC06(r *core.Run) {
 			defer wg.Done()
 			defer func() { <-sem }()
 			done := make(chan struct{})
+			c.Tick = new(int64)
 			go func() {
 				defer close(done)
 				tr, env := runQueueHistoryIO(c)
 				b := budget
 				b.Seed += int64(i)
+				b.Tick = c.Tick
 				t2, images := queueCrashExplore(tr, env, b)
 				mu.Lock()
 				traces[i] = t2
 				total += images
 				mu.Unlock()
 			}()
-			select {
-			case <-done:
-			case <-time.After(10 * time.Minute):
+			switch core.WatchRun(c.Tick, done, 120*time.Second, 60*time.Minute) {
+			case "hang": // neither an operation nor the draining of a crash image returned for 2 minutes
 				mu.Lock()
 				traces[i] = &core.Trace{Name: c.Name, Meta: c.String(), Events: []core.Event{{"ev": "Hang"}}}
+				mu.Unlock()
+			case "timeout":
+				r.Break("crash exploration of %s did not finish within the budget (it kept making progress)", c.Name)
+				mu.Lock()
+				traces[i] = &core.Trace{Name: c.Name, Meta: c.String()}
 				mu.Unlock()
 			}
 		}(i, c)
